@@ -14,9 +14,9 @@ if [ -f "$dir/demo.py" ]; then
   (cd /repo && timeout 300 /venv/bin/python "$dir/demo.py" >/dev/null 2>&1); echo "demo(unchanged) exit=$?"
 fi
 for c in "$@"; do
-  out=$(cd /verif && VERIF_REPO="$wt" ./check "$c" --tier "${TIER:-quick}" --no-evidence 2>&1); rc=$?
+  out=$(cd /verif && VERIF_REPLAY_DIR="$wt-replays" VERIF_REPO="$wt" ./check "$c" --tier "${TIER:-quick}" --no-evidence 2>&1); rc=$?
   n=$(echo "$out" | grep -c '^VIOLATION')
   echo "check $c: exit=$rc violations_printed=$n :: $(echo "$out" | tail -1 | cut -c1-200)"
   echo "$out" | grep -B1 '^VIOLATION' | head -2 | cut -c1-400
 done
-rm -rf /verif/replays/* 2>/dev/null
+rm -rf "$wt-replays" 2>/dev/null
